@@ -167,3 +167,22 @@ Theorem C15_write_after_close_requested_returns : (forall s, closeRequested s = 
   exists s', step ACallWrite s = Some s' /\ pW s' = WRet CLOSED)%nat.
 Proof. exact write_after_close_requested. Qed.
 Print Assumptions C15_write_after_close_requested_returns.
+
+Theorem C15_mux_close_releases_every_running_underlay : (forall ops,
+  forallb tracked (mux_run clean_one [] ops) = true
+  /\ forallb u_done (mux_step clean_one (mux_run clean_one [] ops) MClose) = true
+  /\ (forall u, tracked u = true -> tracked (clean_one u) = true
+                /\ (clean_one u = u \/ (u_done (clean_one u) = true /\ u_listed (clean_one u) = false))))%nat.
+Proof. exact mux_close_releases_all. Qed.
+Print Assumptions C15_mux_close_releases_every_running_underlay.
+
+Theorem C15_mux_clean_dropping_refuted : (exists ops, forallb tracked (mux_run clean_one_dropping [] ops) = false
+    /\ forallb u_done (mux_step clean_one_dropping (mux_run clean_one_dropping [] ops) MClose) = false
+    /\ forallb u_done (mux_step clean_one (mux_run clean_one [] ops) MClose) = true)%nat.
+Proof. exact mux_clean_dropping_refuted. Qed.
+Print Assumptions C15_mux_clean_dropping_refuted.
+
+Theorem C15_close_request_whenever_peer_may_hold : ((forall st, peer_may_hold st = true -> code_sends_close_request st = true)
+  /\ (exists st, peer_may_hold st = true /\ established_only_sends_close_request st = false))%nat.
+Proof. exact close_request_whenever_peer_may_hold. Qed.
+Print Assumptions C15_close_request_whenever_peer_may_hold.
